@@ -327,10 +327,9 @@ def replay(obd, cex):
             r = subprocess.run(["gcc", "-E", "-P", p], capture_output=True, text=True, timeout=20)
             if r.returncode == 0 and not r.stderr.strip():
                 line = [l for l in r.stdout.split("\n") if l.startswith("RESULT:")][0][7:]
-                g = "".join(line.split())
-                e = "".join("".join(detail["expected"]).split())
                 detail["gcc"] = line.strip()
-                if g != e:
+                # token-wise (gcc -E keeps separate tokens apart with a blank: '1 1' is not '11')
+                if ref_cpp.lex(line.strip()) != list(detail["expected"]):
                     # the standard leaves some rescanning cases unspecified: drop, do not report
                     return dict(reproduced=False, detail=dict(detail, note="gcc disagrees with the reference: unspecified or harness error"))
             else:
